@@ -131,6 +131,14 @@ theorem rehandshake_on_counter (present peerHigher haveHigher sigEqual belowInit
     rehandshakes present peerHigher haveHigher sigEqual belowInitiating counter = true := by
   rw [rehandshake_iff]; simp [rehandshakeDue, h]
 
+/-- a peer on a higher certificate version that we hold no certificate for changes nothing: the remaining causes (local
+certificate changed, initiating version, rekey threshold) are still examined (the early-return variant of this branch
+is the reviewer seed C30-2) -/
+theorem mixed_versions_without_upgrade_fall_through (present sigEqual belowInitiating : Bool) (counter : Nat) :
+    rehandshakes present true false sigEqual belowInitiating counter =
+      rehandshakes present false false sigEqual belowInitiating counter := by
+  simp [rehandshakes]
+
 /-- nothing else does: same certificate, versions in order, counter below the threshold ⇒ no re-handshake -/
 theorem no_spurious_rehandshake (peerHigher haveHigher : Bool) (counter : Nat) (hv : (peerHigher && haveHigher) = false)
     (h : counter < rehandshakeAfter) : rehandshakes true peerHigher haveHigher true false counter = false := by
